@@ -365,6 +365,11 @@ impl<'a> MetaStoreMigrate<'a> {
                             "remove_slots_from_src_to_scale_down: get dst existing slots number",
                         );
                         let need_num = dst_final_num - curr_slots_num - dst_existing;
+                        if need_num == 0 {
+                            // This master already owns its final number of slots.
+                            curr_dst_master_index += 1;
+                            continue;
+                        }
                         let available_num = slot_range.get_range_list().get_slots_num();
 
                         if available_num == 0 {
